@@ -158,6 +158,28 @@ def silent_client_isolation(chk: Check, sp: spdriver.ServerProcess, servertype: 
             if first:
                 s.sendall(first)
             silent.append(s)
+        # ... and clients that have read their complete response over TLS and simply keep the connection open
+        # (more of them than a forking server allows workers)
+        lingering = 0
+        ctx = ssl.SSLContext(ssl.PROTOCOL_TLS_CLIENT)
+        ctx.check_hostname = False
+        ctx.verify_mode = ssl.CERT_NONE
+        for _ in range(44):
+            try:
+                raw = socket.create_connection(("127.0.0.1", sp.port), timeout=3)
+                t = ctx.wrap_socket(raw, server_hostname="localhost")
+                t.sendall(b"/small.txt\r\n")
+                got = b""
+                while len(got) < 6:
+                    b = t.recv(6 - len(got))
+                    if not b:
+                        break
+                    got += b
+                silent.append(t)
+                lingering += 1
+            except (OSError, ssl.SSLError):
+                break       # nobody answers any more: that is for the probes below to establish
+        chk.count("clients_lingering_after_their_response", lingering)
         time.sleep(0.2)
         results = {}
 
